@@ -6,13 +6,15 @@ What `ascent!` / `ascent_par!` / `ascent_run!` / `ascent_run_par!` / `ascent_sou
 program *before* any code is generated, in the ORDER in which the real code decides it:
 
 1. `parse_ascent_program` (ascent_syntax.rs): items in textual order — an outer attribute in front of a
-   rule / macro / `include_source!` is an error, a `lattice` with no column *or a trailing comma* is an
-   error (`field_types.empty_or_trailing()`), the first `include_source!` ends parsing
+   rule / macro / `include_source!` is an error, a `lattice` with no column is an error
+   (`field_types.is_empty()`; before fix 9d3a18a also one with a trailing comma), the first
+   `include_source!` ends parsing
    (`ascent_source!`: error; the other macros: the rest is re-submitted through the included macro, so
    nothing else is decided in this invocation);
 2. `desugar_ascent_program`: macro expansion rule by rule (body items lazily in order, then the heads),
    depth budget 100 shared by macro invocations and disjunction nesting, `flatten_punctuated`
-   (utils.rs) panics when an empty expansion is followed by a comma; then the disjunction product,
+   (utils.rs; since fix 71f89c5 it no longer panics when an empty expansion is followed by a comma);
+   then the disjunction product,
    `?pattern` arguments become `if let` conditions in front of the clause's own conditions, negation
    becomes `agg () = not() in r(..)`;
 3. `compile_ascent_program_to_hir` (ascent_hir.rs): every rule in order, body items in order, then the
@@ -27,8 +29,9 @@ program *before* any code is generated, in the ORDER in which the real code deci
 
 The input is a *check-relevant summary* of the program text (`Summary`): names, arities, the variables
 each pattern binds **as `pattern_get_vars` reports them** (`seen`) and the ones it binds without
-reporting them (`hidden`: variables under a parenthesised sub-pattern, syn's `Pat::Paren`, for which
-`pattern_get_vars` has no arm), attribute names and shapes, trailing commas.  The text → summary mapping
+reporting them (`hidden`: before fix f47e99d the variables under a parenthesised sub-pattern, syn's
+`Pat::Paren`; since then only what no syntactic analysis can see, e.g. a macro in pattern position — the
+generator of the tie produces none), attribute names and shapes, trailing commas.  The text → summary mapping
 is done by the Python generator while it prints the text (tools/vlib/c15gen.py) and is trusted.
 
 Macro hygiene is modelled as it behaves under real `rustc` spans: every name written literally in a
@@ -229,7 +232,7 @@ deriving DecidableEq, Repr
 
 def parseItems : List Top → Except Err Parsed
   | [] => .ok .whole
-  | .rel d :: rest => if d.lat && (d.arity == 0 || d.trailing) then .error .emptyLattice else parseItems rest
+  | .rel d :: rest => if d.lat && d.arity == 0 then .error .emptyLattice else parseItems rest
   | .mac n _ :: rest => if n != 0 then .error .attrOnItem else parseItems rest
   | .rule n _ :: rest => if n != 0 then .error .attrOnItem else parseItems rest
   | .incl n :: _ => if n != 0 then .error .attrOnItem else .ok .deferred
@@ -259,15 +262,12 @@ def Env.arg (σ : Env) : Arg → Arg
   | .other => .other
   | .pat b => .pat (σ.binder b)
 
-/-- does `flatten_punctuated` call `push_punct` on an empty or already punctuated sequence: an empty
-inner sequence that is followed by a comma -/
-def punctPanic {α : Type} : List (List α) → Bool → Bool
-  | [], _ => false
-  | [x], trailing => x.isEmpty && trailing
-  | x :: y :: rest, trailing => x.isEmpty || punctPanic (y :: rest) trailing
-
-def flattenP {α : Type} (inner : List (List α)) (trailing : Bool) : Except Err (List α) :=
-  if punctPanic inner trailing then .error .panicFlatten else .ok inner.flatten
+/-- `flatten_punctuated` (utils.rs): the inner sequences concatenated.  Since fix 71f89c5 the separator
+that follows an EMPTY inner sequence is dropped instead of being pushed (`Punctuated::push_punct` panicked
+there: finding FM7), so the function is total; `trailing` (is the last inner sequence followed by a comma)
+no longer matters.  The error type is kept so that the callers read as before. -/
+def flattenP {α : Type} (inner : List (List α)) (_trailing : Bool) : Except Err (List α) :=
+  .ok inner.flatten
 
 /-- the depth budget of `rule_expand_macro_invocations` -/
 def depthBudget : Nat := 100
